@@ -284,3 +284,16 @@ prop(
     assumptions=["a message is considered not sent if it has not arrived 150 ms after the last one (3 s at most per operation)"],
 )
 
+prop(
+    "C04",
+    module="Aquatic.Props.C04",
+    extra_modules=["Aquatic.Props.Store"],
+    technique="Lean 4 proof (transition system of threads over the shared two-level state, one atomic step per lock-protected section: for every number of threads, program and schedule no step fails or blocks, the sequential view stays in simulation with the reference that receives each operation at one of its own steps, replies are the reference's at that step, held Arcs stay attached) + systematic enumeration of interleavings of the real code (threads serialised by a scheduler at hook gates) and a free-running stress with a watchdog",
+    runs=[dict(harness="udpconc", driver="conc", quick=dict(cases=8, schedules=150), thorough=dict(cases=120, schedules=4000))],
+    nontrivial=["interleaved", "torrent-removed", "free-running"],
+    level_text="Theorems, for any number of threads, any programs of announce / scrape / clean and ANY schedule of their steps (one step per lock-protected section: A1 find-or-create + clone Arc, A2 announce under the peer map lock, S one scrape entry, C1 snapshot of a shard, C2 clean one peer map, C3 retain of a shard): every step of every thread succeeds in every reachable state (nothing blocks: deadlock-free at this granularity; no panic); the sequential view of the shared state remains in simulation with the reference tracker to which each announce is applied at its A2 step, each torrent's cleaning at its C2 step, each scrape entry at its S step - points inside the operation's own execution; every announce reply and scrape entry equals the reference's at that point; every Arc held between steps stays the one stored for its torrent (retain keeps shared or non-empty torrents), hence an answered announce is stored. Tie: real threads over one shared TorrentMaps, stopped at gates in the lock-free gaps (hook) and released one at a time; all interleavings of small programs (2-3 threads, torrents in one or two shards, deadlines straddling the cleaning time, incl. the pass that finds a torrent empty while an announce holds its Arc) are enumerated depth-first and each compared with the model run on the same schedule and with the reference at the linearization points; plus 8 free-running threads x 3000 operations under a watchdog.",
+    level_note="partial for the runtime part: that each lock-protected section is atomic and that acquiring shard -> peer map locks in that order cannot deadlock rests on parking_lot's RwLock; it is exercised by the gated runs (a thread blocked at a lock held across a gate is reported as HANG) and the free-running stress, not proved. One address family and the 16 shards by first hash byte are modelled; access lists are outside C04's quantifier.",
+    design_ref="§8 C04",
+    assumptions=["gates are placed where the code holds no lock (checked by the HANG detection)", "a multi-torrent scrape / clean is atomic per torrent, as the property states"],
+)
+
